@@ -15,14 +15,19 @@ cleanup() { git -C /repo worktree remove --force "$R" >/dev/null 2>&1; rm -rf "$
 trap cleanup EXIT
 ( cd "$R" && git apply "$DIFF" ) || { echo "DETECT: patch does not apply"; exit 3; }
 mkdir -p "$V"
-( cd "$SRC" && git ls-files -z --cached --others --exclude-standard | rsync -a --from0 --files-from=- ./ "$V"/ )
+if [ -n "${DETECT_COMMITTED:-}" ]; then   # the committed harness (HEAD), not the working tree
+  ( cd "$SRC" && git archive HEAD | tar -x -C "$V" )
+else
+  ( cd "$SRC" && git ls-files -z --cached --others --exclude-standard | rsync -a --from0 --files-from=- ./ "$V"/ )
+fi
 sed -i "s#=> /repo#=> $R#" "$V/go.mod"
 cd "$V" || exit 3
 export VERIF_REPO="$R" VERIF_ROOT="$V"
 ./run.sh "$C" "$TIER" > "$V/out.log" 2>&1
 rc=$?
 grep -c '^VIOLATION' "$V/out.log" | sed 's/^/violations=/'
-grep '^VIOLATION\|^KNOWN-FINDING\|HARNESS' "$V/out.log" | cut -c1-260 | head -${DETECT_LINES:-12}
+grep '^   key: ' "$V/out.log" | cut -c1-300 | head -${DETECT_LINES:-12}
+grep '^VIOLATION\|HARNESS' "$V/out.log" | cut -c1-260 | head -3
 tail -3 "$V/out.log" | cut -c1-300
 echo "DETECT: check=$C tier=$TIER exit=$rc"
 exit $rc
